@@ -169,6 +169,11 @@ func (a *analysis) stuckVerdict(prop string) *verdict {
 	rr := a.rr
 	switch rr.stuckKind {
 	case "deadlock":
+		if strings.HasPrefix(rr.stuckSig, "spin@") {
+			v := violated(rr.stuckSig, "a library goroutine keeps running %s while the logical clock has stood still for 5 s (no render cycle, no hook event, no client call completes): it loops without making progress", strings.TrimPrefix(rr.stuckSig, "spin@"))
+			v.Witness = rr.stuckDump
+			return &v
+		}
 		v := violated("deadlock:"+rr.stuckSig,
 			"certified deadlock: two goroutine dumps 150 ms apart are identical, the logical clock stands still and every goroutine is parked (%s); Wait/API call never returns", rr.stuckSig)
 		v.Witness = rr.stuckDump
